@@ -78,6 +78,48 @@ matches at least five tokens (a `SplitCompoundWord` answers 0 or 3) -/
 example : patGeneralCompoundNouns.minLen = 5 ∧ patImpliedInstantiatedCompoundNouns.minLen = 5 ∧
     patImpliedOwnershipCompoundNouns.minLen = 5 ∧ patToHop.minLen = 7 ∧ patToHope.minLen = 5 ∧ patShouldContract.minLen = 5 := by decide
 
+/-! ### every variable a child's `match_to_lint` uses is bound -/
+
+/-- how many texts the children's own computations hand on: `mistake_to_correct` two, `get_merged_word` and `to_correct` one,
+the `let's` guard none -/
+theorem mergeCustomSteps_yield (n : Nat) : CustomYields n 1 toHopCorrect ∧ CustomYields n 2 contractForms ∧
+    (∀ i j bit, CustomYields n 1 (mergedWord i j bit)) ∧ CustomYields n 0 letsGuard :=
+  ⟨toHopCorrect_yields n, contractForms_yields n, fun i j bit => mergedWord_yields i j bit n, letsGuard_yields n⟩
+
+/-- **every child's spec fits every number of tokens its tree can match** — index expressions in range and every `.var`
+bound (ShouldContract's `.var 0`, `.var 1` by `mistake_to_correct`; the compound-noun rules' by the `.bind` of the original text
+and by `get_merged_word`, both AFTER the span is taken) — for every `Env`, no law needed -/
+theorem mergeChildren_fit : ∀ x ∈ allChildren, ∀ n, x.2.pat.minLen ≤ n → (∀ k, x.2.pat.maxLen = some k → n ≤ k) → x.2.spec.Fits n :=
+  allChildren_fits
+
+/-- **no child reads an unbound variable**: on any tokens of a number its tree can match, `match_to_lint` interpreted with the
+default `[]` for an unbound `.var` is `match_to_lint` interpreted without it -/
+theorem mergeChild_reads_bound_variables (env : Env) (name : String) (c : PRule) (hn : childByName name = some c)
+    (src : List Char) (matched : List Tok) (hmin : c.pat.minLen ≤ matched.length)
+    (hmax : ∀ k, c.pat.maxLen = some k → matched.length ≤ k) : c.spec.run? env src matched = some (c.spec.run env src matched) := by
+  have hm : (name, c) ∈ allChildren := by
+    simp only [childByName] at hn
+    generalize allChildren = tbl at hn
+    induction tbl with
+    | nil => cases hn
+    | cons a tbl ih =>
+      simp only [List.lookup] at hn
+      split at hn
+      · rename_i heq
+        simp only [Option.some.injEq] at hn
+        subst hn
+        have : name = a.1 := by simpa using heq
+        subst this
+        exact List.mem_cons_self
+      · exact List.mem_cons_of_mem _ (ih hn)
+  exact Spec.run?_eq env c.spec src matched (allChildren_fits _ hm _ hmin hmax)
+
+/-- non-vacuity of `mergeChildren_fit` / `mergeChild_reads_bound_variables`: `"GeneralCompoundNouns"` is in the table, its tree
+matches at least five tokens and has no upper bound in the model; its suggestion uses `.var 1` and `.var 0`, both bound in `after` -/
+example : childByName "GeneralCompoundNouns" = some generalCompoundNouns ∧ generalCompoundNouns.pat.minLen ≤ 5 ∧
+    generalCompoundNouns.pat.maxLen = none ∧ generalCompoundNouns.spec.before = [] ∧
+    generalCompoundNouns.spec.suggs 5 = [.matchCase (.var 1) (.var 0)] := ⟨rfl, by decide, by decide, rfl, rfl⟩
+
 /-- the tables have the nine children and the four rules, in declaration order -/
 example : allChildren.map (·.1) = ["ToHop", "ToHope", "ShouldContract", "AvoidContraction", "LetUsRedundancy", "NoContractionWithVerb",
       "GeneralCompoundNouns", "ImpliedInstantiatedCompoundNouns", "ImpliedOwnershipCompoundNouns"] ∧
